@@ -197,6 +197,19 @@ def check_unknown(case):
         raise Discard()
     fam = _family(family)
     kwargs = copy.deepcopy(MINIMAL.get(amap[own[case["pick"] % len(own)]], {})) if case["with_kwargs"] else {}
+    if case.get("prior_failure"):
+        # an earlier, unrelated configuration error in the same process (a bank given an unknown or invalid
+        # scale, directly or nested in a computer configuration) must not change how aliases resolve afterwards
+        from pydrobert.speech import compute, filters
+
+        for bad in ("nope", {"name": "octave", "low_hz": 0}):
+            try:
+                if case["prior_failure"] == 1:
+                    filters.GaborFilterBank(bad, num_filts=3)
+                else:
+                    compute.STFTFrameComputer({"name": "tri", "scaling_function": bad, "num_filts": 3})
+            except ValueError:
+                pass
     if case["through"] == "from_alias":
         expect_raises("%s.from_alias(%r)" % (family, s), ValueError, fam.from_alias, s, **kwargs)
     elif case["through"] == "str":
@@ -218,6 +231,7 @@ def unknown_cases():
             "text": st.text(alphabet="abcdefghijklmnopqrstuvwxyz_-0123456789 ABCXYZ", min_size=0, max_size=10),
             "with_kwargs": st.booleans(),
             "through": st.sampled_from(["from_alias", "from_alias", "str", "map_alias", "map_name"]),
+            "prior_failure": st.sampled_from([0, 0, 1, 2]),
         }
     )
 
